@@ -82,6 +82,15 @@ def directed(run):
             scs.append(scenario(store_kind=kind, content=content, config={"counter": True},
                                 ops=[{"op": "make_credential", "req": q2}, {"op": "get_assertion", "req": q}],
                                 user={"script": [{"presence": True, "verification": True}] * 2}))
+    # a store that fails with a status of its own (vendor 0xF0.., extension 0xE0.., reserved values, CTAP1 codes) at each call of a
+    # ceremony: the status reaches the caller unchanged on both paths
+    for kind in ("ref", "memory"):
+        content = [mk_passkey(rng, "example.com", cred_id=held, counter=1, keyidx=0)]
+        for code in (0xF1, 0xF2, 0xFF, 0xE0, 0xEF, 0x40, 0x7E, 0xDF, 0x01, 0x27):
+            for at in range(0, 4):
+                scs.append(scenario(store_kind=kind, content=content, config={"counter": True}, faults=[{"at": at, "code": code}],
+                                    ops=[{"op": "get_assertion", "req": ga_req(rng, allow=[held])}, {"op": "make_credential", "req": mc_req(rng, rk=True, exclude=[bytes(16)])}],
+                                    user={"script": [{"presence": True, "verification": True}] * 2}))
     for n in (64, 65, 100, 300):
         for ch in ("a", "\u00e9", "\u6f22"):
             name = (ch * n)[: n if ch == "a" else n // len(ch.encode("utf-8"))]
